@@ -32,4 +32,9 @@ def obsCrash {F : Type} [DecidableEq F] (sys : Sys F) (S : List (MC F)) : List (
   dedup ((silentClosure sys S).flatMap fun m =>
     (if m.alive then [] else [m]) ++ crashSteps sys m ++ (restartSteps sys m).filter (fun m' => !m'.alive))
 
+/-- the real process is alive and at rest (the scenario step returned): no event is in flight, and the swap is /
+    is not in the service's active map -/
+def obsRest {F : Type} [DecidableEq F] (sys : Sys F) (S : List (MC F)) (active : Bool) : List (MC F) :=
+  dedup ((silentClosure sys S).filter fun m => m.alive && m.pend.isNone && m.active == active)
+
 end PsVerif.Model.Abs
